@@ -433,3 +433,179 @@ def constructors_rule(ctx, facts, rid):
         r.check(raw == bytes(len(raw)), "Move::NULL", "Move::NULL is not the all-zero move", what="Move::NULL = (Null, EMPTY, 0, 0)")
     except KeyError:
         pass
+
+
+# ---------------------------------------------------------------------------------------------- the semilegality validator
+
+SEMI = "owlchess::moves::base::do_is_move_semilegal"
+
+
+def _ref_semilegal(C, kind, c, s, d, sc):
+    """Semilegality of a well-formed move from the rules of chess, on the abstract scenario sc."""
+    if kind == 0:
+        return False
+    if sc["board_src"] != c:
+        return False
+    col = WHITE if 1 <= c <= 6 else BLACK
+    if c == 0 or col != C:
+        return False
+    dc = sc["dst"]
+    if dc != 0 and (WHITE if dc <= 6 else BLACK) == C:
+        return False
+    piece = (c - 1) % 6
+    fwd = -8 if C == WHITE else 8
+    if piece == PAWN:
+        if kind == 4:
+            return sc["mid"] == 0 and dc == 0
+        if kind == 5:
+            p = sc["ep"]
+            return p is not None and p in (s + 1, s - 1) and d == p + fwd
+        return ((d & 7) == (s & 7)) == (dc == 0)
+    if piece == KING:
+        if kind in (2, 3):
+            side = 1 if kind == 2 else 0
+            nxt = s + 1 if kind == 2 else s - 1
+            return bool(sc["right"].get((C, side))) and (ref_pass(C, side) & sc["all"]) == 0 \
+                and not sc["attacked"].get(s) and not sc["attacked"].get(nxt)
+        return True
+    if piece == KNIGHT:
+        return True
+    dirs = {BISHOP: geom.BISHOP_DIRS, ROOK: geom.ROOK_DIRS, QUEEN: geom.BISHOP_DIRS + geom.ROOK_DIRS}[piece]
+    bt = geom.between(s, d, dirs)
+    return bt is not None and (bt & sc["all"]) == 0
+
+
+def _scenarios(C, kind, c, s, d, thorough):
+    """Abstract boards around one move: what stands on the destination, blockers, en-passant mark, rights, attacks."""
+    own = cell(C, KNIGHT)
+    enemy = cell(1 - C, KNIGHT)
+    piece = (c - 1) % 6 if c else None
+    fwd = -8 if C == WHITE else 8
+    out = []
+    for board_src in ((c, enemy) if thorough or kind in (1, 4) else (c,)):
+        for dc in (0, own, enemy):
+            base = {"board_src": board_src, "dst": dc, "mid": 0, "ep": None, "right": {}, "attacked": {}, "all": 0}
+            occ = (1 << s) | ((1 << d) if dc else 0)
+            if kind == 4:
+                for mid in (0, enemy):
+                    sc = dict(base, mid=mid, all=occ | ((1 << (s + fwd)) if mid else 0))
+                    out.append(sc)
+            elif kind == 5:
+                lo = s & ~7
+                for p in (None, s - 1, s + 1, lo + ((s + 3) & 7)):
+                    if p is not None and not (lo <= p <= lo + 7):
+                        continue
+                    out.append(dict(base, ep=p, all=occ | ((1 << p) if p is not None else 0)))
+            elif kind in (2, 3):
+                side = 1 if kind == 2 else 0
+                nxt = s + 1 if kind == 2 else s - 1
+                passbb = ref_pass(C, side)
+                blockers = [0] + [1 << b for b in geom.bits(passbb)]
+                for right in ({}, {(C, side): True}, {(C, 1 - side): True}, {(1 - C, side): True}):
+                    for blk in blockers:
+                        for att in ({}, {s: True}, {nxt: True}, {d: True}):
+                            out.append(dict(base, right=right, attacked=att, all=occ | blk))
+            elif piece in (BISHOP, ROOK, QUEEN):
+                dirs = geom.BISHOP_DIRS + geom.ROOK_DIRS
+                bt = geom.between(s, d, dirs) or 0
+                blks = [0] + [1 << b for b in geom.bits(bt)]
+                # a blocker off the line must not matter
+                off = [1 << q for q in range(64) if q not in (s, d) and not (bt >> q) & 1][:1]
+                for blk in blks + off:
+                    out.append(dict(base, all=occ | blk))
+            else:
+                out.append(dict(base, all=occ))
+    return out
+
+
+def semilegal_rule(ctx, facts, rid, thorough=False):
+    r = ctx.rule(rid, "do_is_move_semilegal accepts a well-formed move exactly under the conditions of the rules of chess (abstract boards: "
+                      "destination, blockers, en-passant mark, castling right, attacked squares), for both colour instances")
+    from .fx import FxBuilder as _FB
+    ATT = "owlchess::movegen::do_is_cell_attacked"
+    HAS = "owlchess_base::types::CastlingRights::has"
+    total = 0
+    for C, col in ((WHITE, "White"), (BLACK, "Black")):
+        fn = facts.fns.get("%s::<owlchess::generic::%s>" % (SEMI, col))
+        if fn is None:
+            r.anchor_missing("%s::<%s>" % (SEMI, col))
+            continue
+        trees = {}
+        bad = None
+        n_inst = 0
+        squares = range(64) if thorough else (0, 3, 7, 9, 27, 28, 36, 54, 56, 60, 63)
+        for kind in range(10):
+            for c in range(13):
+                if bad:
+                    break
+                key = (kind, c)
+                mv = ("agg", "owlchess::moves::base::Move", "Move",
+                      (("const", kind, "owlchess::moves::base::MoveKind"), ("const", c, "owlchess_base::types::Cell"), ("sym", "S"), ("sym", "D")))
+                tree = None
+                for s in range(64):
+                    if bad:
+                        break
+                    piece = (c - 1) % 6 if c else None
+                    if kind == 1 and piece in (KNIGHT, BISHOP, ROOK, QUEEN, KING) and s not in squares:
+                        continue
+                    for d in range(64):
+                        if not wf_ref(kind, c, s, d):
+                            continue
+                        if tree is None:
+                            fb = _FB(facts, stop={ATT, HAS})
+                            tree = fb.tree(fn, env=[("param", 1, "b"), mv])
+                        for sc in _scenarios(C, kind, c, s, d, thorough):
+                            def mem(pe_, te, sc=sc, s=s, d=d, C=C):
+                                txt = show(pe_)
+                                if pe_[0] in ("tbl", "index") and txt.split("[")[0].endswith("b.r.cells"):
+                                    idx = te.ev(pe_[2])
+                                    if idx == s:
+                                        return sc["board_src"]
+                                    if idx == d:
+                                        return sc["dst"]
+                                    if idx == s + (-8 if C == WHITE else 8):
+                                        return sc["mid"]
+                                    return 13 if (sc["all"] >> idx) & 1 else 0
+                                if pe_[0] == "field" and pe_[2] == "ep_source":
+                                    return ("agg", "None", ()) if sc["ep"] is None else ("agg", "Some", (sc["ep"],))
+                                if pe_[0] == "downcast" and pe_[2] == "Some" and pe_[1][0] == "field" and pe_[1][2] == "ep_source" \
+                                        and sc["ep"] is not None:
+                                    return sc["ep"]
+                                if pe_[0] == "field" and pe_[2] == "all":
+                                    return sc["all"]
+                                if pe_[0] == "field" and pe_[2] == "castling":
+                                    return 0
+                                raise Unsupported("memory read " + txt)
+
+                            def oracle(name, args, te, sc=sc):
+                                if name.startswith(ATT):
+                                    return int(bool(sc["attacked"].get(te.ev(args[1]))))
+                                if name == HAS:
+                                    return int(bool(sc["right"].get((te.ev(args[1]), te.ev(args[2])))))
+                                return None
+                            te = TreeEval(facts, mem=mem, oracle=oracle)
+                            try:
+                                res = te.run(tree, {"S": s, "D": d})
+                                got = bool(res[1]) if res else None
+                            except (Unsupported, Panic) as e:
+                                got = "not evaluable: %r" % (e,)
+                            want = _ref_semilegal(C, kind, c, s, d, sc)
+                            total += 1
+                            if got != want:
+                                bad = (kind, c, s, d, sc, got, want)
+                                break
+                        if bad:
+                            break
+                if tree is not None and not bad:
+                    n_inst += 1
+                    r.ok("semilegal/%s/%s/cell%d" % (col, KINDS[kind], c))
+        if bad:
+            kind, c, s, d, sc, got, want = bad
+            r.fail("semilegal/%s/%s" % (col, KINDS[kind]),
+                   "do_is_move_semilegal::<%s> answers %s for %s of cell %d from %s to %s, the rules say %s (destination cell %d, blocker set %#x, "
+                   "en-passant mark %s, rights %s, attacked %s)" % (col, got, KINDS[kind], c, geom.name(s), geom.name(d), want, sc["dst"],
+                                                                   sc["all"], sc["ep"], sorted(sc["right"]), sorted(sc["attacked"])),
+                   site=ctx.site(fn))
+        if not bad:
+            r.floor(n_inst, 20, "(kind, cell) arms of do_is_move_semilegal::<%s>" % col)
+    ctx.extra["semilegal_points"] = total
